@@ -748,8 +748,16 @@ func (rec EncRec) warmUp() {
 func withNastyPathMapping(f func()) {
 	dir := filepath.Dir(encCaller.Raw)
 	old, flags := encCaller, slog.GetFlags()
-	slog.AddKnownPathMapping(dir, "C:\\Users\\\"dev\"\\src")
 	slog.AddFlags(slog.Lprivacypath)
+	if strings.HasPrefix(slog.Safety(encCaller.Raw), "~") {
+		// another rule (the home directory) already rewrites the path of this tree: two
+		// rules would compete and the iteration order of the table would decide which text is printed - not a
+		// scenario with ONE expected text (seen when the tree was run from a directory below $HOME)
+		slog.SetFlags(flags)
+		f()
+		return
+	}
+	slog.AddKnownPathMapping(dir, "C:\\Users\\\"dev\"\\src")
 	encCaller.File = slog.Safety(encCaller.Raw)
 	defer func() {
 		slog.RemoveKnownPathMapping(dir)
